@@ -15,7 +15,7 @@ AUDIT_IMPORT = ("From Coq Require Import ZArith List Bool Arith.\nImport ListNot
 CASE_TYPE = "C02.Corr.case"
 EXPLAIN = "C02.Corr.explain"
 AXIOM_ALLOW = []
-SHARD = 700
+SHARD = 750
 SEARCH_MAX = 1500
 THEOREMS = [
     ('c02_lower_bound_spec',
@@ -65,12 +65,16 @@ def nontrivial(c, obs):
 
 
 MANIFEST = {
-    "text": "Coq theorems (no axioms) about the same executable model as C01: for a lawful item whose default is the identity of "
-            "merge on the values met, lower_bound(l, f) returns the least r >= l with f(merge of [l..r]) and lower_bound_rev(r, f) "
-            "the greatest l <= r, None exactly when there is none, for every predicate monotone along the growing ranges; every "
-            "argument shown to the predicate is the in-order merge of such a range (no commutativity assumed) and pending lazy "
-            "tags do not influence the answer (the representation invariant is preserved).  Every run compares the real "
-            "lower_bound / lower_bound_rev (results and closure arguments) with the model and with the plain-array specification.",
-    "level_note": "Trusted: Coq kernel + vm_compute; the Rust executor and the Python printer/parsers; Z for i64; sampled correspondence.",
+    "text": "Coq theorems (5 pinned, no axioms) about the same executable model as C01, for every lawful item whose default is the "
+            "identity of merge on the range merges met and every predicate monotone along the growing ranges: c02_lower_bound_spec "
+            "(lower_bound(l, f) returns the least r >= l with f(merge of [l..r]), None iff there is none, the logical array is "
+            "unchanged whatever lazy tags are pending), c02_lower_bound_rev_spec (greatest l <= r), c02_lower_bound_trace / "
+            "c02_lower_bound_rev_trace (every argument shown to the predicate is the in-order merge of such a range; no "
+            "commutativity, no monotonicity needed), c02_model_check_spec_check.  Every run compares the real lower_bound / "
+            "lower_bound_rev (results and the exact list of closure arguments) with the model and with the plain-array "
+            "specification on search-heavy histories for 10 item types.",
+    "level_note": "Trusted: Coq kernel + vm_compute; the Rust executor and the Python printer/parsers; Z for i64; sampled "
+                  "correspondence; searches with non-monotone predicates are compared with the model only; positions >= n are "
+                  "outside the model (the crate panics by out-of-bounds indexing there).",
     "technique": "Coq proof over Gallina model + vm_compute correspondence batches against the Rust crate",
 }
